@@ -7,6 +7,7 @@ raise/no-raise, and snapshots the node's plain view before and after (purity).
 The outcome is compared with a predicate written from the docstrings and
 evaluated on that same composed node.
 """
+import collections
 import datetime
 import enum
 import pathlib
@@ -67,6 +68,18 @@ class Inner:
         self.y = y
 
 
+class InnerX:
+    """Two required attributes, one optional, extras with a default."""
+
+    def __init__(self, x: int, z: int, y: str = 'd',
+                 _yatiml_extra: Optional[collections.OrderedDict] = None
+                 ) -> None:
+        self.x = x
+        self.z = z
+        self.y = y
+        self._yatiml_extra = _yatiml_extra
+
+
 class Probe:
     """Document class; its recogniser performs the call under test."""
     CALL = None
@@ -100,6 +113,7 @@ TYPES = {
     'color': Color, 'opt_color': Optional[Color],
     'union_bool_color': Union[bool, Color],
     'inner': Inner, 'list_inner': List[Inner],
+    'innerx': InnerX, 'list_innerx': List[InnerX],
 }
 SCALAR_ARGS = [(), ('str',), ('int',), ('float',), ('bool',), ('none',),
                ('nonetype',), ('int', 'str'), ('float', 'int'),
@@ -163,6 +177,24 @@ def recognisable(v, t):
             return False
         if 'y' in d and not recognisable(d['y'], str):
             return False
+        return True
+    if t is InnerX:
+        if v[0] != 'map':
+            return False
+        if v[2] not in (S.TAG_MAP, '!InnerX'):
+            raise Unspecified('class mapping with another tag')
+        keys = [k[2] if k[0] == 's' else None for k, _ in v[1]]
+        if len(set(map(str, keys))) != len(keys):
+            raise Unspecified('duplicate keys')
+        d = {k[2]: x for k, x in v[1] if k[0] == 's'}
+        for name, typ, req in (('x', int, True), ('z', int, True),
+                               ('y', str, False)):
+            if name not in d:
+                if req:
+                    return False
+                continue
+            if not recognisable(d[name], typ):
+                return False
         return True
     raise Unspecified('type %r' % (t,))
 
@@ -252,7 +284,7 @@ def do_call(node, call):
 
 class Env:
     def __init__(self):
-        self.load = yatiml.load_function(Probe, Color, Inner)
+        self.load = yatiml.load_function(Probe, Color, Inner, InnerX)
         plain = yatiml.load_function()
         self.ctor = plain.loader('')
 
@@ -345,6 +377,8 @@ HAND_DOCS = [
     'a: {k: [1.5]}\n', 'a: {1: 1}\n', 'a: {x: 3}\n', 'a: {x: 3, y: s}\n',
     'a: {x: 3, y: 4}\n', 'a: {x: s}\n', 'a: {y: s}\n', 'a: [{x: 1}, {x: 2}]\n',
     'a: [{x: 1}, {x: s}]\n', 'a: !Inner {x: 3}\n', 'a: !Color red\n',
+    'a: {x: 3, z: 4}\n', 'a: {x: 3, z: 4, y: s, w: 1}\n', 'a: {z: 4}\n',
+    'a: [{x: 1, z: 2}, {x: 2}]\n', 'a: {x: 1, y: s}\n',
     'a: !Other {x: 3}\n', 'a: !!python/object:os.system {x: 3}\n',
     'b_c: 1\n', 'b-c: 1\n', 'b-c: 1\nb_c: 2\n', '1: x\n', 'true: x\n',
     '"1": x\n', '"true": x\n', '"": 1\n', '? [1, 2]\n: x\na: 1\n',
